@@ -51,6 +51,7 @@ def rules(ctx):
     C02.recorded_copy_rules(ctx, E, P.func('PCBO.add_constraint_eq_zero'), 'R06.5', 'R06.5', 'PUBO')
     C02.record_not_shared(ctx, 'R06.5')
     C02.record_helpers(ctx, 'R06.5')
+    C02.arity_guards(ctx, 'R06.5', P.opt_funcs(['_pcbo._special_constraints_eq_zero']) or [P.func('PCBO.add_constraint_eq_zero')])
     from .C14 import refresh_order
     refresh_order(ctx, 'R06.5')
     C02.copy_ctor_counter(ctx, 'R06.5')
